@@ -19,6 +19,7 @@ import (
 	"github.com/criyle/go-sandbox/pkg/forkexec"
 	"github.com/criyle/go-sandbox/pkg/memfd"
 	"github.com/criyle/go-sandbox/pkg/pipe"
+	"github.com/criyle/go-sandbox/pkg/unixsocket"
 	"github.com/criyle/go-sandbox/runner/unshare"
 	"golang.org/x/sys/unix"
 	"verif/mc"
@@ -38,6 +39,9 @@ type c06xOp struct {
 	name string
 	run  func() string // performed by the helper on the pinned thread, every system call of it is a boundary
 	prep func()        // optional: performed by the helper before the thread is traced
+	// the operation lowers the descriptor limit of the whole process: a launch beside it would fail for want of numbers,
+	// so it is explored by the descriptor-holder family (C17) only
+	shortage bool
 }
 
 var c06xEnv container.Environment // built by prep for the container operations
@@ -48,40 +52,40 @@ func c06xOps() []c06xOp {
 		{"forkexec-start(vfork)", func() string {
 			r := &forkexec.Runner{Args: rep(), Env: []string{}, Files: stdioNull()}
 			return c06xWait(r.Start())
-		}, nil},
+		}, nil, false},
 		{"forkexec-start(sync-callback)", func() string {
 			r := &forkexec.Runner{Args: rep(), Env: []string{}, Files: stdioNull(), SyncFunc: func(int) error { return nil }}
 			return c06xWait(r.Start())
-		}, nil},
+		}, nil, false},
 		{"forkexec-start(user-namespace,sync-callback)", func() string {
 			r := &forkexec.Runner{Args: rep(), Env: []string{}, Files: stdioNull(), SyncFunc: func(int) error { return nil },
 				CloneFlags:  unix.CLONE_NEWUSER | unix.CLONE_NEWNS | unix.CLONE_NEWPID,
 				UIDMappings: []syscall.SysProcIDMap{{ContainerID: 0, HostID: 0, Size: 1}}, GIDMappings: []syscall.SysProcIDMap{{ContainerID: 0, HostID: 0, Size: 1}}}
 			return c06xWait(r.Start())
-		}, nil},
+		}, nil, false},
 		{"forkexec-start(callback-refuses)", func() string {
 			r := &forkexec.Runner{Args: rep(), Env: []string{}, Files: stdioNull(), SyncFunc: func(int) error { return fmt.Errorf("no") }}
 			return c06xWait(r.Start())
-		}, nil},
+		}, nil, false},
 		{"forkexec-start(exec-fails)", func() string {
 			r := &forkexec.Runner{Args: []string{probe("no-such-program")}, Env: []string{}, Files: stdioNull()}
 			return c06xWait(r.Start())
-		}, nil},
+		}, nil, false},
 		{"namespace-runner-run", func() string {
 			res := runUnshare(context.Background(), []string{"/probe/burn", "exit", "0"}, func(r *unshare.Runner) {})
 			return statusName(res.Status)
-		}, nil},
+		}, nil, false},
 		{"container-build+destroy", func() string {
 			c, err := newContainer(nil)
 			if err != nil {
 				return "build: " + err.Error()
 			}
 			return fmt.Sprint(c.Destroy())
-		}, nil},
+		}, nil, false},
 		{"container-execve(host side)", func() string {
 			res := c06xEnv.Execve(context.Background(), execveParam([]string{"/probe/burn", "exit", "0"}))
 			return statusName(res.Status)
-		}, func() { c06xEnv, _ = newContainer(nil) }},
+		}, func() { c06xEnv, _ = newContainer(nil) }, false},
 		{"container-open(two files received)", func() string {
 			fr, err := c06xEnv.Open([]container.OpenCmd{{Path: "/w/a", Flag: os.O_CREATE | os.O_WRONLY, Perm: 0644}, {Path: "/w/b", Flag: os.O_CREATE | os.O_RDWR, Perm: 0644}})
 			// the received files stay open until the operation is over: they are what a concurrent launch could inherit
@@ -94,7 +98,18 @@ func c06xOps() []c06xOp {
 			}()
 			c06xEnv.Ping()
 			return fmt.Sprint("open:", err)
-		}, func() { c06xEnv, _ = newContainer(nil) }},
+		}, func() { c06xEnv, _ = newContainer(nil) }, false},
+		{"socket-pair(2 free descriptor numbers)", func() string {
+			// the pair is created, the duplicate inside NewSocket is refused: the error path must close each number once
+			restore := fdShortage(2)
+			a, b, err := unixsocket.NewSocketPair()
+			restore()
+			if err == nil {
+				a.Close()
+				b.Close()
+			}
+			return fmt.Sprint(err)
+		}, nil, true},
 		{"memfd-copy+pipe-collector", func() string {
 			f, err := memfd.DupToMemfd("x", strings.NewReader("payload"))
 			if err == nil {
@@ -106,8 +121,14 @@ func c06xOps() []c06xOp {
 				<-b.Done
 			}
 			return fmt.Sprint(err, err2)
-		}, nil},
+		}, nil, false},
 	}
+}
+
+type c06xHolder struct {
+	fd       int
+	dev, ino uint64
+	path     string
 }
 
 func c06xWait(pid int, err error) string {
@@ -161,6 +182,7 @@ func c06xHelper(args []string) int {
 	}()
 	say(fmt.Sprintf("TID %d", <-tidCh))
 	type bres struct{ s string }
+	var holders []c06xHolder
 	var pending chan bres
 	nB := 0
 	launchB := func() chan bres {
@@ -212,6 +234,35 @@ func c06xHelper(args []string) int {
 			case <-time.After(150 * time.Millisecond):
 				say("B blocked")
 			}
+		case "H":
+			// family "descriptor held by another run" (C17): a descriptor that belongs to somebody else is opened at this
+			// boundary (it gets the lowest free number) and kept until A is over
+			hp := filepath.Join(dir, fmt.Sprintf("h%d", len(holders)))
+			fd, err := unix.Open(hp, unix.O_RDONLY|unix.O_CREAT|unix.O_CLOEXEC, 0600)
+			if err != nil {
+				say("H none " + err.Error())
+				break
+			}
+			var st unix.Stat_t
+			unix.Fstat(fd, &st)
+			holders = append(holders, c06xHolder{fd, st.Dev, st.Ino, hp})
+			say(fmt.Sprintf("H ok %d", fd))
+		case "CHECK-H":
+			var bad []string
+			for _, h := range holders {
+				var st unix.Stat_t
+				if err := unix.Fstat(h.fd, &st); err != nil {
+					bad = append(bad, fmt.Sprintf("%d:%v", h.fd, err))
+				} else if st.Dev != h.dev || st.Ino != h.ino {
+					bad = append(bad, fmt.Sprintf("%d:now-another-file(type %#o)", h.fd, st.Mode&unix.S_IFMT))
+				} else {
+					unix.Close(h.fd)
+				}
+				os.Remove(h.path)
+			}
+			n := len(holders)
+			holders = nil
+			say(fmt.Sprintf("H-RESULT held=%d bad=%s", n, strings.Join(bad, ",")))
 		case "DONE?":
 			select {
 			case r := <-aDone:
@@ -231,9 +282,26 @@ var c06xSyscallNames = map[uint64]string{0: "read", 1: "write", 2: "open", 3: "c
 	39: "getpid", 41: "socket", 44: "sendto", 45: "recvfrom", 46: "sendmsg", 47: "recvmsg", 53: "socketpair", 56: "clone", 57: "fork", 58: "vfork", 59: "execve", 61: "wait4", 62: "kill", 72: "fcntl", 186: "gettid", 202: "futex",
 	232: "epoll_wait", 233: "epoll_ctl", 234: "tgkill", 257: "openat", 262: "newfstatat", 281: "epoll_pwait", 290: "eventfd2", 291: "epoll_create1", 292: "dup3", 293: "pipe2", 302: "prlimit64", 319: "memfd_create", 435: "clone3", 437: "openat2"}
 
+type c06xResult struct {
+	stops, judged, blocked int
+	leaks                  map[string]string // syscall boundary → extras
+	aResult                string
+	err                    string
+	// holder mode
+	held       int
+	lost       string   // holders that were closed or replaced under their owner
+	strayClose []string // close() of A's thread that the kernel answered with EBADF: a number A did not own
+}
+
 func c06xConcurrent(x *mc.X) {
 	ops := c06xOps()
-	oi := x.Choose(len(ops), "operation-A")
+	var idx []int
+	for i, o := range ops {
+		if !o.shortage {
+			idx = append(idx, i)
+		}
+	}
+	oi := idx[x.Choose(len(idx), "operation-A")]
 	x.Note("family", "concurrent-launch")
 	x.Note("operation-A", ops[oi].name)
 	if x.Dry() {
@@ -241,20 +309,43 @@ func c06xConcurrent(x *mc.X) {
 	}
 	x.NeedsTime(200 * time.Second)
 	x.OnHang("C06/harness", "concurrent-launch exploration of "+ops[oi].name+" did not finish")
+	r, ok := c06xDrive(x, "C06", oi, "B")
+	if !ok {
+		return
+	}
+	x.Note("boundaries", fmt.Sprintf("%d system-call boundaries of A, %d judged, %d blocked (covered by the fork lock or by a stopped runtime); A: %s", r.stops, r.judged, r.blocked, r.aResult))
+	x.Add("syscall_boundaries", int64(r.stops))
+	x.Add("interleavings_judged", int64(r.judged))
+	x.Count(int64(r.stops))
+	if r.judged < 10 {
+		x.Failf("C06/harness", "concurrent-launch exploration of %s judged only %d of %d boundaries", ops[oi].name, r.judged, r.stops)
+	}
+	if len(r.leaks) > 0 {
+		var ks []string
+		for k := range r.leaks {
+			ks = append(ks, k)
+		}
+		sort.Strings(ks)
+		b, _ := json.Marshal(r.leaks)
+		x.Failf("C06/concurrent-launch/foreign-descriptor/"+ops[oi].name, "while %s was stopped at a system-call boundary (%s …), a complete launch from another goroutine produced a program with descriptors beyond its list: %s", ops[oi].name, ks[0], string(b))
+	}
+	x.Distinct(fmt.Sprint("x", ops[oi].name, len(r.leaks) > 0))
+	x.Outcome(fmt.Sprintf("concurrent-launch:%s:leaks=%v", ops[oi].name, len(r.leaks) > 0))
+}
+
+// c06xDrive runs operation A of the helper with its thread stopped at every system-call boundary. mode "B": one complete
+// launch at each boundary; mode "H": a descriptor of "another run" is opened at each boundary and held to the end; mode
+// "N": nothing is done at the boundaries (only A's own close calls are watched).
+func c06xDrive(x *mc.X, id string, oi int, mode string) (c06xResult, bool) {
+	ops := c06xOps()
 	dir := tmpDir("c06x")
 	defer os.RemoveAll(dir)
 	self, _ := os.Executable()
-	type result struct {
-		stops, judged, blocked int
-		leaks                  map[string]string // syscall boundary → extras
-		aResult                string
-		err                    string
-	}
-	resCh := make(chan result, 1)
+	resCh := make(chan c06xResult, 1)
 	go func() {
 		// all ptrace requests must come from one thread
 		runtime.LockOSThread()
-		var r result
+		var r c06xResult
 		r.leaks = map[string]string{}
 		defer func() { resCh <- r }()
 		cmd := exec.Command(self, "c06x", fmt.Sprint(oi), dir)
@@ -294,6 +385,20 @@ func c06xConcurrent(x *mc.X) {
 				return l
 			case <-time.After(d):
 				return "TIMEOUT"
+			}
+		}
+		checkHolders := func() {
+			if mode != "H" {
+				return
+			}
+			a := ask("CHECK-H", 20*time.Second)
+			var held int
+			if _, err := fmt.Sscanf(a, "H-RESULT held=%d", &held); err != nil {
+				r.err = "helper said " + a + " when asked about the held descriptors"
+				return
+			}
+			if i := strings.Index(a, "bad="); i >= 0 {
+				r.lost = a[i+4:]
 			}
 		}
 		first := ask("", horizon)
@@ -363,7 +468,13 @@ func c06xConcurrent(x *mc.X) {
 					}
 					outstanding = false
 				}
-				ans := ask("B", 2*time.Second)
+				if mode != "B" && strings.HasPrefix(name, "close@exit") && int64(regs.Rax) == -int64(syscall.EBADF) {
+					r.strayClose = append(r.strayClose, fmt.Sprintf("close(%d) at boundary %d", int32(regs.Rdi), r.stops))
+				}
+				ans := "N"
+				if mode != "N" {
+					ans = ask(mode, 2*time.Second)
+				}
 				if os.Getenv("C06X_DEBUG") != "" {
 					fmt.Fprintf(os.Stderr, "  -> %s\n", ans)
 				}
@@ -375,6 +486,13 @@ func c06xConcurrent(x *mc.X) {
 							r.leaks[name] = e
 						}
 					}
+				case ans == "N":
+					r.judged++
+				case strings.HasPrefix(ans, "H ok"):
+					r.judged++
+					r.held++
+				case strings.HasPrefix(ans, "H none"):
+					r.blocked++
 				case ans == "B blocked":
 					r.blocked++
 				case ans == "TIMEOUT":
@@ -399,6 +517,7 @@ func c06xConcurrent(x *mc.X) {
 				if a := ask("DONE?", 2*time.Second); strings.HasPrefix(a, "A-DONE") {
 					r.aResult = strings.TrimPrefix(a, "A-DONE ")
 					unix.PtraceDetach(tid)
+					checkHolders()
 					return
 				}
 			}
@@ -409,34 +528,18 @@ func c06xConcurrent(x *mc.X) {
 		}
 		a := ask("WAIT-A", 20*time.Second)
 		r.aResult = strings.TrimPrefix(a, "A-DONE ")
+		checkHolders()
 	}()
-	var r result
+	var r c06xResult
 	select {
 	case r = <-resCh:
 	case <-time.After(150 * time.Second):
-		x.Failf("C06/harness", "concurrent-launch exploration of %s did not finish", ops[oi].name)
-		return
+		x.Failf(id+"/harness", "boundary exploration of %s did not finish", ops[oi].name)
+		return r, false
 	}
 	if r.err != "" {
-		x.Failf("C06/harness", "concurrent-launch exploration of %s: %s", ops[oi].name, r.err)
-		return
+		x.Failf(id+"/harness", "boundary exploration of %s: %s", ops[oi].name, r.err)
+		return r, false
 	}
-	x.Note("boundaries", fmt.Sprintf("%d system-call boundaries of A, %d judged, %d blocked (covered by the fork lock or by a stopped runtime); A: %s", r.stops, r.judged, r.blocked, r.aResult))
-	x.Add("syscall_boundaries", int64(r.stops))
-	x.Add("interleavings_judged", int64(r.judged))
-	x.Count(int64(r.stops))
-	if r.judged < 10 {
-		x.Failf("C06/harness", "concurrent-launch exploration of %s judged only %d of %d boundaries", ops[oi].name, r.judged, r.stops)
-	}
-	if len(r.leaks) > 0 {
-		var ks []string
-		for k := range r.leaks {
-			ks = append(ks, k)
-		}
-		sort.Strings(ks)
-		b, _ := json.Marshal(r.leaks)
-		x.Failf("C06/concurrent-launch/foreign-descriptor/"+ops[oi].name, "while %s was stopped at a system-call boundary (%s …), a complete launch from another goroutine produced a program with descriptors beyond its list: %s", ops[oi].name, ks[0], string(b))
-	}
-	x.Distinct(fmt.Sprint("x", ops[oi].name, len(r.leaks) > 0))
-	x.Outcome(fmt.Sprintf("concurrent-launch:%s:leaks=%v", ops[oi].name, len(r.leaks) > 0))
+	return r, true
 }
